@@ -351,7 +351,9 @@ def skeleton(m: HdlcModel):
     bad_use = []
     for u in uses:
         p = parents.get(u)
-        ok = (isinstance(p, ast.Call) and isinstance(p.func, ast.Attribute) and p.func.attr == "extend" and ast.unparse(p.func.value) == f"self.{R.buffer}" and p.args == [u])
+        # the single use is the sole argument of a method call; that the receiver is the input buffer (possibly through a local alias)
+        # and the method appends is established on the resolved paths below (`extended`)
+        ok = isinstance(p, ast.Call) and isinstance(p.func, ast.Attribute) and p.args == [u] and not p.keywords
         if not ok:
             bad_use.append(u)
     if bad_use or len(uses) != 1:
@@ -386,12 +388,13 @@ def skeleton(m: HdlcModel):
                 continue
             if e[0] == "callm" and e[1] == m.f0(R.buffer):
                 short = e[2].split(".")[-1]
-                if short == "extend":
+                bk = m.bkind(e[2])
+                if e[3] == (("p", chunk),):
                     extended = True
                     if seen_loop:
                         res.append(Result("bad", "skeleton", "extend-after-loop", "input is buffered after the read loop", e[-1]))
                     continue
-                if short == "trim_buffer_to_flag_or_end":
+                if isinstance(bk, tuple) and bk[0] == "trim-needle":
                     if H is not True:
                         res.append(Result("bad", "hunt-trim", "trim-to-flag-outside-hunt", "buffered input is skipped to the next flag although the reader is not in hunt mode "
                                           "(octets of a frame in progress are dropped when a call boundary falls there)", e[-1], witness="; ".join(f"{'' if pol else 'not '}{t}" for t, pol, _ in unknown) or "frame is not None"))
@@ -400,9 +403,14 @@ def skeleton(m: HdlcModel):
                     if seen_loop:
                         trimmed_after = True
                     continue
-                if short == "trim_buffer_to_current_position":
+                if bk == "trim-pos":
                     if seen_loop:
                         trimmed_after = True
+                    continue
+                if bk == "unknown" and not seen_loop and H is True:
+                    continue  # judged by the buffer contract of the role `hunt-mode trim`
+                if bk == "unknown" and seen_loop:
+                    trimmed_after = True  # judged by the buffer contract of the role `release consumed input`
                     continue
                 res.append(Result("bad", "skeleton", f"buffer.{short}", f"read() calls buffer.{short} outside the per-octet step", e[-1]))
                 continue
@@ -510,101 +518,73 @@ def _eval_order(stmts):
 
 
 # ---------------------------------------------------------------------------------------------- buffer contracts
+def buffer_usage(m: HdlcModel):
+    """which buffer methods the reader uses, and in which role (from where they are called, not from their names)"""
+    R = m.roles
+    buf0 = m.f0(R.buffer)
+    use = {}
+    chunk = m.read_fn.params[0] if m.read_fn.params else None
+    for p in Engine(m.M, keep_props=m.keep).run(m.read_fn):
+        seen_loop = False
+        for e in p.effects:
+            if e[0] == "loop":
+                seen_loop = True
+            if e[0] == "callm" and e[1] == buf0:
+                name = e[2].split(".")[-1]
+                role = "extend" if e[3] == (("p", chunk),) else ("trim-pos" if seen_loop else "trim-needle")
+                use.setdefault(name, set()).add(role)
+    for sp in m.paths:
+        for e in sp.path.effects:
+            if e[0] == "callm" and e[1] == buf0:
+                name = e[2].split(".")[-1]
+                k = m.bkind(e[2])
+                use.setdefault(name, set()).add("pop-octet" if (k in ("pop-octet", "unknown") and not e[3]) else (k[0] if isinstance(k, tuple) else k))
+        if sp.path.guards:
+            g = sp.path.guards[0][0]
+
+            def walk(sv):
+                if isinstance(sv, tuple):
+                    if sv and sv[0] == "prop" and sv[1] == buf0:
+                        use.setdefault(sv[2], set()).add("avail")
+                    if sv and sv[0] == "call" and isinstance(sv[1], str) and len(sv) > 2 and sv[2] and sv[2][0] == buf0 and sv[1].startswith(f"{MOD}.{R.buffer_cls[1]}."):
+                        use.setdefault(sv[1].split(".")[-1], set()).add("avail")
+                    for x in sv:
+                        walk(x)
+            if not m.mentions(g, m.f0(R.frame)):
+                walk(g)
+    return use
+
+
+BUF_INSTANCE = {"pop-octet": "pop", "trim-pos": "trim-to-position", "trim-needle": "trim-to-flag", "avail": "is_available", "extend": "extend"}
+BUF_TEXT = {"pop-octet": "returns the first unconsumed octet and advances the read position by exactly one",
+            "trim-pos": "keeps exactly the unconsumed suffix and releases the consumed octets",
+            "trim-needle": "continues at the first flag of the unconsumed input (drops everything if there is none) and releases what it skipped",
+            "avail": "true exactly when an unconsumed octet exists", "extend": "appends the chunk at the end of the buffer"}
+
+
 def buffer_contracts(m: HdlcModel):
-    """pop returns buffer[pos] and advances by one; is_available = unconsumed octet exists; trims are content preserving."""
+    """E-SEQ: every buffer method the reader uses satisfies the contract of the role it is used in (abstract evaluation over
+    content slices and read position; independent of field names, slicing idiom or branch layout)."""
     res = []
-    M = m.M
-    bk = m.roles.buffer_cls
-    cls = M.classes.get(bk)
-    if cls is None:
-        return [Result("undecided", "buffer", "class", "buffer class not found")]
-    # roles inside the buffer: the bytearray field and the position field
-    data_f = [a for a, v in cls.field_inits.items() if isinstance(v, ast.Call) and isinstance(v.func, ast.Name) and v.func.id == "bytearray"]
-    pos_f = [a for a, v in cls.field_inits.items() if isinstance(v, ast.Constant) and v.value == 0]
-    if len(data_f) != 1 or len(pos_f) != 1:
-        return [Result("undecided", "buffer", "fields", f"cannot bind buffer fields: data={data_f} pos={pos_f}")]
-    D, P = ("f0", SELF, data_f[0]), ("f0", SELF, pos_f[0])
-    file_line = cls.node.lineno
-
-    def run(name):
-        fn = cls.methods.get(name)
-        if fn is None:
-            return None, None
-        return fn, Engine(M).run(fn)
-
-    # pop
-    popname = (m.roles.pop or "hdlc._ReaderBuffer.pop").split(".")[-1]
-    fn, ps = run(popname)
-    if fn is None:
-        res.append(Result("undecided", "buffer", "pop", "pop method not found"))
-    else:
-        ok = len(ps) == 1 and ps[0].status == "return" and ps[0].ret == ("sub", D, P) and \
-            [e for e in ps[0].effects if e[0] == "write"] == [e for e in ps[0].effects if e[0] == "write" and e[2] == pos_f[0] and e[3] == ("op", "Add", P, ("c", 1))] and \
-            len([e for e in ps[0].effects if e[0] in ("write", "mutate")]) == 1
-        if ok:
-            res.append(Result("ok", "buffer", "pop", "returns buffer[pos] and advances pos by exactly one"))
-        else:
-            res.append(Result("bad", "buffer", "pop", "pop() is not `return buffer[pos]; pos += 1`", fn.node.lineno, witness="; ".join(show_path(p).replace("\n", " | ") for p in ps)[:300]))
-    # is_available (loop test)
-    fn, ps = run("is_available")
-    if fn is not None:
-        forms = {("cmp", "Gt", ("len", D, 0), P), ("cmp", "Lt", P, ("len", D, 0)), ("not", ("cmp", "LtE", ("len", D, 0), P)), ("not", ("cmp", "GtE", P, ("len", D, 0)))}
-        if len(ps) == 1 and ps[0].ret in forms:
-            res.append(Result("ok", "buffer", "is_available", "true exactly when an unconsumed octet exists (len(buffer) > pos)"))
-        else:
-            res.append(Result("bad", "buffer", "is_available", "loop test is not `len(buffer) > pos`", fn.node.lineno, witness=show_sv(ps[0].ret) if ps else None))
-    # extend
-    fn, ps = run("extend")
-    if fn is not None:
-        e = [x for p in ps for x in p.effects if x[0] in ("write", "mutate")]
-        if len(ps) == 1 and len(e) == 1 and e[0][0] == "mutate" and e[0][1] == D and e[0][2] == "extend" and e[0][3] == (("p", fn.params[0]),):
-            res.append(Result("ok", "buffer", "extend", "appends the chunk at the end of the buffer"))
-        else:
-            res.append(Result("bad", "buffer", "extend", "extend() does not simply append the chunk to the buffer", fn.node.lineno))
-    # trim to current position
-    fn, ps = run("trim_buffer_to_current_position")
-    if fn is not None:
-        w = [x for p in ps for x in p.effects if x[0] in ("write", "mutate")]
-        want = [("write", SELF, data_f[0], ("slice", D, P, None)), ("write", SELF, pos_f[0], ("c", 0))]
-        if len(ps) == 1 and [x[:4] for x in w] == want:
-            res.append(Result("ok", "buffer", "trim-to-position", "buffer := buffer[pos:]; pos := 0 (unconsumed suffix preserved)"))
-        else:
-            res.append(Result("bad", "buffer", "trim-to-position", "trim is not `buffer = buffer[pos:]; pos = 0` (unconsumed input altered)", fn.node.lineno,
-                              witness="; ".join(f"{x[2]}:={show_sv(x[3])}" for x in w if x[0] == "write")))
-    # trim to flag or end
-    fn, ps = run("trim_buffer_to_flag_or_end")
-    if fn is not None:
-        okc = 0
-        D1 = ("slice", D, P, None)
-        for p in ps:
-            lits = {}
-            findsv = None
-            for g, pol, ln in p.guards:
-                if g[0] == "cmp" and g[2][0] == "call" and g[2][1].endswith(".find") and g[3][0] == "c":
-                    findsv = g[2]
-                    lits[(g[1], g[3][1])] = pol
-            if findsv is None or findsv[2] != (D1, ("c", m.flag)):
-                continue
-            w = [x for x in p.effects if x[0] in ("write", "mutate")]
-            if [x[:4] for x in w[:2]] != [("write", SELF, data_f[0], D1), ("write", SELF, pos_f[0], ("c", 0))]:
-                continue
-            rest = w[2:]
-            notfound = lits.get(("Eq", -1)) is True
-            positive = lits.get(("LtE", 0)) is False or lits.get(("Gt", 0)) is True
-            def final_pos_zero(rest):
-                ws = [x for x in rest if x[0] == "write" and x[2] == pos_f[0]]
-                return all(x[3] == ("c", 0) for x in ws)
-            if notfound:
-                good = any(x[0] == "mutate" and x[2] == "clear" for x in rest) or any(x[0] == "write" and x[2] == data_f[0] and x[3][0] == "new" for x in rest)
-            elif positive:
-                good = any(x[0] == "write" and x[2] == data_f[0] and x[3] == ("slice", D1, findsv, None) for x in rest)
+    B = m.buf
+    use = buffer_usage(m)
+    seen_roles = set()
+    for name, roles in sorted(use.items()):
+        for role in sorted(roles):
+            seen_roles.add(role)
+            inst = BUF_INSTANCE.get(role, role)
+            v = B.check(name, role, m.flag if role == "trim-needle" else None)
+            if v.ok is True:
+                res.append(Result("ok", "buffer", inst, f"{name}(): {BUF_TEXT.get(role, role)}"))
+            elif v.ok is False:
+                # a method that satisfies a stronger/other adequate contract in that role is fine (trim-to-flag where trim-to-position is needed)
+                if role == "trim-pos" and B.check(name, "trim-needle", m.flag).ok is True:
+                    res.append(Result("ok", "buffer", inst, f"{name}(): {BUF_TEXT['trim-needle']}"))
+                    continue
+                res.append(Result("bad", "buffer", inst, f"input buffer, used as `{BUF_TEXT.get(role, role)}`: {v.why}", v.line, witness=v.witness))
             else:
-                good = not any((x[0] == "write" and x[2] == data_f[0]) or x[0] == "mutate" for x in rest)
-            if good and final_pos_zero(rest):
-                okc += 1
-        if okc == len(ps) == 3:
-            res.append(Result("ok", "buffer", "trim-to-flag", "= trim to position, then drop everything before the first flag, or everything if there is none (3 sign cases of find())"))
-        else:
-            res.append(Result("bad", "buffer", "trim-to-flag", "hunt-mode trim is not `trim to position; drop octets before the first flag (all if none)`", fn.node.lineno,
-                              witness=f"{okc} of {len(ps)} cases conform"))
+                res.append(Result("undecided", "buffer", inst, v.why))
+    for role in ("pop-octet", "avail", "extend", "trim-pos", "trim-needle"):
+        if role not in seen_roles:
+            res.append(Result("undecided", "buffer", BUF_INSTANCE[role], f"the reader does not use a buffer operation in the role `{BUF_TEXT[role]}`"))
     return res
